@@ -131,6 +131,7 @@ struct World {
 	std::function<void(const Datagram &)> router;        // replaces default routing of every sendto()
 	std::function<void(const Datagram &)> on_send;       // observe every sendto()
 	std::function<void(const Datagram &, Instance *)> on_deliver; // datagram handed to an instance socket
+	std::function<void(const Datagram &, Instance *)> on_recv;    // instance actually read the datagram (recv*/recvmsg)
 	std::function<void(Instance *, const Bytes &)> on_tun_write;
 	std::function<void(Instance *, const Bytes &)> on_tun_read;
 	std::function<void(Instance *, const std::string &)> on_system;
